@@ -317,8 +317,8 @@ def run_c04(tier, seed, replay=None):
             req_ops = [o for o in trace_ops if o.split()[0] in ("ensure", "av", "as", "http")]
             ev = parse_strace(os.path.join(hd, "strace.log"), datadir)
             nreq = len(reqs)
-            # ---- materialise images
-            imgs = []
+            # ---- images are materialised, recovered, judged and DELETED in slices (a thorough run produces tens of
+            # thousands of them, each a copy of the database files)
             acks = 0
             ack_at = []
             for e in ev:
@@ -327,113 +327,135 @@ def run_c04(tier, seed, replay=None):
                     acks = e[1]
             ack_at.append(acks)
             seen = set()
-            for (pt, kind, files) in images(ev, rng, tier):
-                key = hash(tuple(sorted((f, hash(b)) for f, b in files.items())))
-                if (key, ack_at[pt]) in seen:
-                    continue
-                seen.add((key, ack_at[pt]))
-                d = os.path.join(hd, f"img{len(imgs)}")
-                os.makedirs(d)
-                for f, b in files.items():
-                    os.makedirs(os.path.dirname(os.path.join(d, f)) or d, exist_ok=True)
-                    open(os.path.join(d, f), "wb").write(b)
-                inside = 0 < pt < len(ev) and ev[pt - 1][0] != "ack"
-                imgs.append({"dir": d, "point": pt, "kind": kind, "acked": ack_at[pt], "inside": inside,
-                             "event": (ev[pt][0] + ":" + str(ev[pt][1])) if pt < len(ev) else "end"})
-                kinds[kind] += 1
-            # ---- recover every image with the current code (batched)
-            def batch(chunk):
-                lines = []
-                for im in chunk:
+            state = {"allowed": None, "n": 0}
+            slice_imgs, slice_bytes = [], 0
+            def flush():
+                nonlocal slice_imgs, slice_bytes
+                if slice_imgs:
+                    process_images(slice_imgs)
+                    for im in slice_imgs:
+                        shutil.rmtree(im["dir"], ignore_errors=True)
+                slice_imgs, slice_bytes = [], 0
+            def materialise():
+                nonlocal slice_imgs, slice_bytes
+                for (pt, kind, files) in images(ev, rng, tier):
+                    key = hash(tuple(sorted((f, hash(b)) for f, b in files.items())))
+                    if (key, ack_at[pt]) in seen:
+                        continue
+                    seen.add((key, ack_at[pt]))
+                    d = os.path.join(hd, f"img{state['n']}")
+                    state["n"] += 1
+                    os.makedirs(d)
+                    for f, b in files.items():
+                        os.makedirs(os.path.dirname(os.path.join(d, f)) or d, exist_ok=True)
+                        open(os.path.join(d, f), "wb").write(b)
+                        slice_bytes += len(b)
+                    inside = 0 < pt < len(ev) and ev[pt - 1][0] != "ack"
+                    slice_imgs.append({"dir": d, "point": pt, "kind": kind, "acked": ack_at[pt], "inside": inside,
+                                       "event": (ev[pt][0] + ":" + str(ev[pt][1])) if pt < len(ev) else "end"})
+                    kinds[kind] += 1
+                    if len(slice_imgs) >= 800 or slice_bytes > 1_500_000_000:
+                        flush()
+                flush()
+            def process_images(imgs):
+              if True:
+                # ---- recover every image with the current code (batched)
+                def batch(chunk):
+                    lines = []
+                    for im in chunk:
+                        n = os.path.basename(im["dir"])
+                        lines += [f"case {n}", f"schemastat {im['dir']}", f"usedir {im['dir']}", f"schemastat {im['dir']}",
+                                  f"loadstate {hd}/ids.txt", "integrity", "dumpall", "ensure 1", "av 1 stored:1 b:7,7", "end"]
+                    q = subprocess.run([binp, "lib", "sqlite"], input="\n".join(lines) + "\n", capture_output=True, text=True,
+                                       env=dict(ENV, VERIF_SEED=str(seed)), timeout=3000)
+                    return q.stdout, q.returncode, q.stderr[-300:]
+                chunks = [imgs[k::NCPU] for k in range(NCPU) if imgs[k::NCPU]]
+                rec = {}
+                with cf.ThreadPoolExecutor(max_workers=NCPU) as ex:
+                    for (so, rc, se) in ex.map(batch, chunks):
+                        cur = None
+                        for line in so.split("\n"):
+                            if line.startswith("# case "):
+                                cur = line[7:].strip(); rec[cur] = []
+                            elif line.startswith("OP ") and cur:
+                                rec[cur].append([line[3:], None])
+                            elif line.startswith("R ") and cur and rec[cur]:
+                                rec[cur][-1][1] = line[2:]
+                        if rc != 0:
+                            rec["__fail__"] = se
+                # ---- allowed states from the model: after j requests, j = 0..nreq (computed with the first slice)
+                dump_ops = None
+                for v in rec.values():
+                    if isinstance(v, list):
+                        dump_ops = [o for o, r in v if o.startswith("dump ")]
+                        if dump_ops:
+                            break
+                allowed = state["allowed"]
+                if allowed is None and dump_ops:
+                    allowed = []
+                    # request boundaries in the recorded op list (an `av` on client 2 comes with its ensure)
+                    bounds = [0]
+                    for idx, o in enumerate(req_ops):
+                        bounds.append(idx + 1)
+                    for j in range(len(bounds)):
+                        mi = ["reset sqlite"] + req_ops[:bounds[j]] + (dump_ops or [])
+                        q = subprocess.run([RUNNER, "sqlite"], input="\n".join(mi) + "\n", capture_output=True, text=True, timeout=600)
+                        ml = [l for l in q.stdout.split("\n") if l.strip()]
+                        allowed.append(ml[bounds[j]:])
+                    state["allowed"] = allowed
+                allowed = allowed or []
+                # ---- verdict per image
+                for im in imgs:
                     n = os.path.basename(im["dir"])
-                    lines += [f"case {n}", f"schemastat {im['dir']}", f"usedir {im['dir']}", f"schemastat {im['dir']}",
-                              f"loadstate {hd}/ids.txt", "integrity", "dumpall", "ensure 1", "av 1 stored:1 b:7,7", "end"]
-                q = subprocess.run([binp, "lib", "sqlite"], input="\n".join(lines) + "\n", capture_output=True, text=True,
-                                   env=dict(ENV, VERIF_SEED=str(seed)), timeout=3000)
-                return q.stdout, q.returncode, q.stderr[-300:]
-            chunks = [imgs[k::NCPU] for k in range(NCPU) if imgs[k::NCPU]]
-            rec = {}
-            with cf.ThreadPoolExecutor(max_workers=NCPU) as ex:
-                for (so, rc, se) in ex.map(batch, chunks):
-                    cur = None
-                    for line in so.split("\n"):
-                        if line.startswith("# case "):
-                            cur = line[7:].strip(); rec[cur] = []
-                        elif line.startswith("OP ") and cur:
-                            rec[cur].append([line[3:], None])
-                        elif line.startswith("R ") and cur and rec[cur]:
-                            rec[cur][-1][1] = line[2:]
-                    if rc != 0:
-                        rec["__fail__"] = se
-            # ---- allowed states from the model: after j requests, j = 0..nreq
-            dump_ops = None
-            for v in rec.values():
-                if isinstance(v, list):
-                    dump_ops = [o for o, r in v if o.startswith("dump ")]
-                    if dump_ops:
-                        break
-            allowed = []
-            # request boundaries in the recorded op list (an `av` on client 2 comes with its ensure)
-            bounds = [0]
-            cnt = 0
-            for idx, o in enumerate(req_ops):
-                cnt += 1
-                bounds.append(idx + 1)
-            for j in range(len(bounds)):
-                mi = ["reset sqlite"] + req_ops[:bounds[j]] + (dump_ops or [])
-                q = subprocess.run([RUNNER, "sqlite"], input="\n".join(mi) + "\n", capture_output=True, text=True, timeout=600)
-                ml = [l for l in q.stdout.split("\n") if l.strip()]
-                allowed.append(ml[bounds[j]:])
-            # ---- verdict per image
-            for im in imgs:
-                n = os.path.basename(im["dir"])
-                r = rec.get(n)
-                out.evaluations += 1
-                msgs = []
-                where = f"history h{hi} ({len(reqs)} requests), {im['kind']}-loss image before event {im['point']} ({im['event']}), {im['acked']} requests acknowledged"
-                if not r:
-                    msgs.append(f"recovery run produced nothing for {where}: {rec.get('__fail__', '')}")
-                else:
-                    d = dict((o.split()[0] + (" " + o.split()[1] if o.startswith("dump") else ""), rr) for o, rr in r)
-                    if any(rr == "OPEN-FAILED" for o, rr in r):
-                        msgs.append(f"the database does not open after the crash: {where}")
-                    integ = [rr for o, rr in r if o == "integrity"]
-                    if integ and integ[0] != "integrity ok":
-                        msgs.append(f"integrity check says `{integ[0]}`: {where}")
-                    # the start-up path against Setup.v: what a process crash leaves is what SOME prefix of the six
-                    # steps of SqliteStorage::new produces; after the next start everything is there
-                    sch = [rr for o, rr in r if o == "mark schemastat"]
-                    if len(sch) == 2:
-                        out.dist["dir-state " + sch[0][7:47]] = out.dist.get("dir-state " + sch[0][7:47], 0) + 1
-                        if im["kind"] == "proc" and not sch[0].startswith("schema unreadable") and sch[0][7:] not in SETUP["prefix"]:
-                            msgs.append(f"the directory is in a state that no prefix of the start-up steps produces (Setup.dead_start): `{sch[0][7:]}`: {where}")
-                        if sch[1][7:] != SETUP["ready"] and not any(rr == "OPEN-FAILED" for o, rr in r):
-                            msgs.append(f"after the next start the directory is not completely set up (Setup.storage_new): `{sch[1][7:]}`, expected `{SETUP['ready']}`: {where}")
-                    got = [rr for o, rr in r if o.startswith("dump ")]
-                    ok_states = []
-                    for j in range(im["acked"], min(im["acked"] + 2, len(allowed))):
-                        cand = allowed[j]
-                        if len(cand) == len(got) and all(view_eq(g, c) for g, c in zip(got, cand)):
-                            ok_states.append(j)
-                    if got and not ok_states:
-                        # is it at least SOME request boundary (then acknowledged data was lost), or none (half-applied)?
-                        other = [j for j in range(len(allowed)) if len(allowed[j]) == len(got) and all(view_eq(g, c) for g, c in zip(got, allowed[j]))]
-                        if other:
-                            msgs.append(f"recovered state is the state after {other[0]} requests but {im['acked']} had been acknowledged: {where}")
-                        else:
-                            msgs.append(f"recovered state matches no request boundary (half-applied write?): {where}; got {got[0][:160]}")
-                    app = [rr for o, rr in r if o.startswith("av ")]
-                    if app and resp_kind(app[0]) not in ("added",):
-                        msgs.append(f"appending after recovery answered `{app[0]}`: {where}")
-                if msgs:
-                    c = Case(f"h{hi}-{n}", sym, {"history": hi, "image": im["point"], "kind": im["kind"]})
-                    problems.append((c, [("oracle", m, "sqlite", None) for m in msgs], {"sqlite": [(o, rr or "", "") for o, rr in (r or [])]}))
-                else:
-                    out.validated += 1
-                    if im["inside"]:
-                        out.distinct.add(n + str(hi))
+                    r = rec.get(n)
+                    out.evaluations += 1
+                    msgs = []
+                    where = f"history h{hi} ({len(reqs)} requests), {im['kind']}-loss image before event {im['point']} ({im['event']}), {im['acked']} requests acknowledged"
+                    if not r:
+                        msgs.append(f"recovery run produced nothing for {where}: {rec.get('__fail__', '')}")
+                    else:
+                        d = dict((o.split()[0] + (" " + o.split()[1] if o.startswith("dump") else ""), rr) for o, rr in r)
+                        if any(rr == "OPEN-FAILED" for o, rr in r):
+                            msgs.append(f"the database does not open after the crash: {where}")
+                        integ = [rr for o, rr in r if o == "integrity"]
+                        if integ and integ[0] != "integrity ok":
+                            msgs.append(f"integrity check says `{integ[0]}`: {where}")
+                        # the start-up path against Setup.v: what a process crash leaves is what SOME prefix of the six
+                        # steps of SqliteStorage::new produces; after the next start everything is there
+                        sch = [rr for o, rr in r if o == "mark schemastat"]
+                        if len(sch) == 2:
+                            out.dist["dir-state " + sch[0][7:47]] = out.dist.get("dir-state " + sch[0][7:47], 0) + 1
+                            if im["kind"] == "proc" and not sch[0].startswith("schema unreadable") and sch[0][7:] not in SETUP["prefix"]:
+                                msgs.append(f"the directory is in a state that no prefix of the start-up steps produces (Setup.dead_start): `{sch[0][7:]}`: {where}")
+                            if sch[1][7:] != SETUP["ready"] and not any(rr == "OPEN-FAILED" for o, rr in r):
+                                msgs.append(f"after the next start the directory is not completely set up (Setup.storage_new): `{sch[1][7:]}`, expected `{SETUP['ready']}`: {where}")
+                        got = [rr for o, rr in r if o.startswith("dump ")]
+                        ok_states = []
+                        for j in range(im["acked"], min(im["acked"] + 2, len(allowed))):
+                            cand = allowed[j]
+                            if len(cand) == len(got) and all(view_eq(g, c) for g, c in zip(got, cand)):
+                                ok_states.append(j)
+                        if got and not ok_states:
+                            # is it at least SOME request boundary (then acknowledged data was lost), or none (half-applied)?
+                            other = [j for j in range(len(allowed)) if len(allowed[j]) == len(got) and all(view_eq(g, c) for g, c in zip(got, allowed[j]))]
+                            if other:
+                                msgs.append(f"recovered state is the state after {other[0]} requests but {im['acked']} had been acknowledged: {where}")
+                            else:
+                                msgs.append(f"recovered state matches no request boundary (half-applied write?): {where}; got {got[0][:160]}")
+                        app = [rr for o, rr in r if o.startswith("av ")]
+                        if app and resp_kind(app[0]) not in ("added",):
+                            msgs.append(f"appending after recovery answered `{app[0]}`: {where}")
+                    if msgs:
+                        c = Case(f"h{hi}-{n}", sym, {"history": hi, "image": im["point"], "kind": im["kind"]})
+                        problems.append((c, [("oracle", m, "sqlite", None) for m in msgs], {"sqlite": [(o, rr or "", "") for o, rr in (r or [])]}))
+                    else:
+                        out.validated += 1
+                        if im["inside"]:
+                            out.distinct.add(n + str(hi))
+            materialise()
+            shutil.rmtree(hd, ignore_errors=True)
             if len(out.samples) < 2:
-                out.samples.append({"history": reqs, "events": len(ev), "images": len(imgs),
+                out.samples.append({"history": reqs, "events": len(ev), "images": state["n"],
                                     "first_events": [str(e[:3])[:80] for e in ev[:8]]})
             for k_ in reqs:
                 out.dist[k_.split()[0]] = out.dist.get(k_.split()[0], 0) + 1
